@@ -10,7 +10,8 @@ import codec
 LEVEL = "model_checking"
 
 # a body that reads as a complete data set of template 256 (two 6-octet records) followed by octets that read as
-# another set header: a decoder that resumes inside a skipped or cut set decodes it
+# another set header: a decoder that resumes inside a skipped or cut set decodes it (NESTED[4:]: one that resumes at the
+# very start of the body)
 NESTED = [9, 9, 9, 9, 1, 0, 0, 16, 7, 7, 7, 7, 7, 7, 8, 8, 8, 8, 8, 8, 1, 0, 0, 10, 6, 6, 6, 6, 6, 6, 0, 0]
 
 # IPFIX: unknown template ids, reserved ids 4..255, a known template using an element that is
@@ -26,7 +27,7 @@ def ipfix_inserts():
             s(303, [1, 2, 3, 4, 5, 6, 7, 8]), s(303, [1, 2, 3, 4, 5, 6, 7, 8] * 2),
             # many undecodable sets in a row (each raises its own non-fatal error)
             s(999, [7]) * 12, s(300, [10, 0, 0, 1, 9, 9, 9, 9]) * 9 + s(999, []) * 3 + s(5, [1]) * 2,
-            s(5, NESTED), s(999, NESTED), s(300, NESTED)]
+            s(5, NESTED), s(999, NESTED), s(300, NESTED), s(200, NESTED[4:])]
 
 def _u16(n):
     return [(n >> 8) & 255, n & 255]
@@ -121,7 +122,7 @@ def v9_inserts():
             s(301, [1, 2, 3, 4, 5, 6, 7, 8]), s(302, [1, 2, 3, 4, 5, 6, 7, 8, 9, 10, 11, 12]),
             s(303, [1, 2, 3, 4, 5, 6, 7, 8]), s(303, [1, 2, 3, 4, 5, 6, 7, 8] * 2),
             s(999, [7]) * 12, s(300, [10, 0, 0, 1, 9, 9, 9, 9]) * 9 + s(999, []) * 3 + s(5, [1]) * 2,
-            s(5, NESTED), s(999, NESTED), s(300, NESTED)]
+            s(5, NESTED), s(999, NESTED), s(300, NESTED), s(200, NESTED[4:])]
 
 def _v9_msg(count, sets):
     return [0, 9] + _u16(count) + [0] * 16 + [o for st in sets for o in st]
@@ -188,7 +189,7 @@ def part(ctx, proto, thorough):
             continue
         jobs.append({"exp": exps[ci % len(exps)], "hist": [tgood, tbad] + c["hist"], "hdr": codec.enc_hdr(proto, c["hdr"]),
                      "sets": c["sets"], "inserts": ins, "truncate": True,
-                     "trunc_inserts": [len(ins) - 3, len(ins) - 2, len(ins) - 1] if (thorough or len(jobs) % 5 == 0) else [],
+                     "trunc_inserts": [len(ins) - 4, len(ins) - 3, len(ins) - 2, len(ins) - 1] if (thorough or len(jobs) % 5 == 0) else [],
                      "pinserts": early_data(proto, c)})
         wants.append(len(c["want"]))
     # in portions: the observations of one portion (every insertion and every cut of every message) are judged and dropped
